@@ -255,12 +255,14 @@ def manager_contract(ctx, rule='A5a'):
     for cname in ('AssignmentManager', 'LazyAssignmentManager'):
         cls = ctx.prog.cls(f'{AMGR}:{cname}')
         for m in ('correct_vector', 'get_matrix', 'get_conn_idx', 'get_conns'):
-            fn = cls.methods.get(m)
+            fn = ctx.prog.find_method(cls, m)       # own method or inherited (template method in the base class)
             if fn is None:
                 raise AnalysisError(f'{cname}.{m} vanished')
             ctx.touch(fn)
             src = FnText(ctx, fn)
-            direct = 'self._correct_is_active(imputed_vector)' in src and 'self._encoder.get_matrix(vector, existence=existence)' in src
+            direct = 'self._correct_is_active(imputed_vector)' in src and \
+                ('self._encoder.get_matrix(vector, existence=existence)' in src or
+                 'self.encoder.get_matrix(vector, existence=existence)' in src)
             via = 'self.get_matrix(vector, existence=existence)' in src
             n += 1
             ctx.ob(rule, fkey(fn, rule, 'vector-and-activeness-from-marks'), direct or via, fn.where,
